@@ -148,6 +148,7 @@ func init() {
 			// a nested block is a scope: it reaches the output as a block, its statements are not spliced into the
 			// enclosing list (a `var` / `const` / `type` declared in it would shadow for the rest of the outer block)
 			c.guard("RW.NOLOSS", func() { r.ruleCoverKinds(map[string]bool{"BlockStmt": true}) })
+			c.guard("RW.SCOPE.REDECL", func() { ruleRwRedecl(c) })
 			// scoping only: the combine table, hoisting (not return rewriting), the consumer loop's binding form
 			c.keep(func(o Obligation) bool {
 				switch o.Rule {
@@ -201,6 +202,9 @@ func init() {
 			c.keep(func(o Obligation) bool {
 				if o.Rule == "RW.BRANCHCTX" {
 					return strings.Contains(o.Construct, "Range") && (strings.HasSuffix(o.Construct, ": break") || strings.HasSuffix(o.Construct, ": continue"))
+				}
+				if o.Rule == "RW.RANGEDISPATCH" && strings.HasPrefix(o.Construct, "range statement that is not an element") {
+					return false // a compiler crash on a labelled loop: C11's, and C13's for ordinary closures
 				}
 				return true
 			})
@@ -374,6 +378,8 @@ func init() {
 			c.guard("OPT.MEMO", r.ruleMemo)
 			// a bystander's own type that merely spells like the API's iterator type is not rewritten
 			c.guard("RW.ITERPRED", r.ruleIterPred)
+			// the range pass enters ordinary closures nested in a generator: a labelled range loop there must survive it
+			c.guard("RW.RANGEDISPATCH", r.ruleRangeDispatch)
 			// C13 answers for code that is not a generator: ordinary closures nested in generators, non-iterator index expressions
 			c.keep(func(o Obligation) bool {
 				switch o.Rule {
@@ -383,6 +389,8 @@ func init() {
 					return strings.Contains(o.Construct, "FuncLit")
 				case "RW.TMPL.ITERTYPE":
 					return strings.Contains(o.Construct, "= false")
+				case "RW.RANGEDISPATCH":
+					return strings.HasPrefix(o.Construct, "range statement that is not an element")
 				case "OPT.ORDER":
 					return o.Construct == "file using seq" || o.Construct == "second file using seq"
 				case "RW.ALLFILES":
